@@ -45,3 +45,7 @@ Definition h_decn (args : list bytes) : bytes :=
 
 Definition ints_handlers : list (bytes * handler) :=
   [ (str "ints.u64", h_u64); (str "ints.san", h_san); (str "ints.enc", h_enc); (str "ints.decn", h_decn) ].
+
+(* entry used by the extracted runner: bytes as numbers 0..255 *)
+Definition dispatch_n (line : list N) : list N :=
+  map b2n (dispatch_table ints_handlers (map n2b line)).
